@@ -1,7 +1,7 @@
 """C12 Argument encoding and decoding are inverse for every instruction signature (codec tables)."""
 import re
 from common import Report
-from facts import hir_walk, place_local, op_local
+from facts import hir_walk, place_local, op_local, op_place
 from rules import arms, lossy, flow
 from rules.visit import names_used
 
@@ -241,4 +241,104 @@ def run(db, tier):
     rep.fn(ffe)
     rep.check("llir::abi::validate" in [t.get("f") for _, t in ffe.calls()], "R-VALIDATE", "from_encodings|validate", ffe.loc,
               "from_encodings calls validate", "from_encodings does not call validate")
+    # ---------------- signature attributes never change width or signedness
+    rep.rule("R-SIG-ATTR", "in a signature string the letter alone fixes an integer's width and signedness; attributes (hex, imm, enum, arg0) "
+                           "only touch their own field")
+    ia = db.fn("llir::abi::int_from_attrs")
+    rep.fn(ia)
+    n_cl = 0
+    for c in db.children.get(ia.id, []):
+        names = dict((nm, pl) for nm, pl in c.mir.get("names", []) if isinstance(pl, dict))
+        fmt_pl = names.get("format")
+        size_pl = names.get("size")
+        if fmt_pl is None:
+            continue
+        n_cl += 1
+        rep.fn(c)
+
+        def rooted(dst, pl):
+            return isinstance(dst, dict) and dst.get("l") == pl["l"] and dst.get("p", [])[:len(pl["p"])] == pl["p"]
+        bad_w = []
+        n_w = 0
+        for b in c.blocks:
+            for st in b["s"]:
+                dst = st.get("d")
+                if rooted(dst, fmt_pl):
+                    n_w += 1
+                    rest = dst["p"][len(fmt_pl["p"]):]
+                    if not (len(rest) == 1 and rest[0][0] == "f" and rest[0][1] == "radix"):
+                        bad_w.append((st["ln"], "format" + "".join("." + str(x[1]) for x in rest)))
+                if size_pl is not None and rooted(dst, size_pl):
+                    bad_w.append((st["ln"], "size"))
+            t = b["t"]
+            if t["k"] == "call":
+                for a in t["a"]:
+                    pass
+        rep.check(not bad_w, "R-SIG-ATTR", "int_from_attrs|attribute writes", c.loc,
+                  "%d write(s) into the captured format, all to .radix (display only)" % n_w,
+                  "an attribute overwrites %s (line %s): a display attribute such as `hex` changes the width/signedness used to encode and decode the value"
+                  % (", ".join(x[1] for x in bad_w), ", ".join(str(x[0]) for x in bad_w)))
+        # the encoding that is returned carries exactly the captured size / format
+        okagg = False
+        dcl = flow.Defs(c)
+        for b in c.blocks:
+            for st in b["s"]:
+                if st["r"] == "agg" and st.get("adt") == "llir::abi::ArgEncoding::Integer":
+                    ops = dict(zip(st["fn"], st["ops"]))
+                    def from_capture(o, pl):
+                        p_ = op_place(o)
+                        if p_ is None:
+                            return False
+                        cp = flow.canon_place(c, p_, dcl)
+                        return cp[0] in ("param", "local") and cp[1] == pl["l"] and list(cp[2])[:1] in ([("f", pl["p"][0][1])], [["f", pl["p"][0][1]]]) or \
+                            any(x[0] == "field" and str(x[2]) == pl["p"][0][1] for x in dcl._op_sources(o, 0, set(), True))
+                    okagg = from_capture(ops["format"], fmt_pl) and (size_pl is None or from_capture(ops["size"], size_pl))
+        rep.check(okagg, "R-SIG-ATTR", "int_from_attrs|result uses the letter's size and format", c.loc, "ArgEncoding::Integer { size, format } come from the format letter",
+                  "the returned encoding does not carry the size/format selected by the format letter")
+    rep.floor("attribute closures of int_from_attrs", n_cl, 1)
+    # the letter table itself: width and signedness per letter (sibling: the documented letters)
+    LETTERS = {"S": (4, "SIGNED"), "s": (2, "SIGNED"), "c": (1, "SIGNED"), "U": (4, "UNSIGNED"), "u": (2, "UNSIGNED"), "b": (1, "UNSIGNED"),
+               "n": (4, "SIGNED"), "N": (4, "SIGNED"), "E": (4, "SIGNED"), "C": (4, "HEX")}
+    m = arms.first_match(ia, db)
+    got = {}
+    for arm in (m["arms"] if m else []):
+        b_ = arms.unwrap_block(arm["b"])
+        for sg in arms.pat_sig(arm["p"]):
+            if sg and b_.get("k") == "Tup" and len(b_.get("es", [])) >= 2:
+                e0, e1 = b_["es"][0], b_["es"][1]
+                got[sg.strip("'")] = (int(str(e0.get("v", "0")).rstrip("u8").rstrip("_") or 0) if e0.get("k") == "Lit" else None,
+                                      (e1.get("p") or "").rsplit("::", 1)[-1])
+    for ch, want in sorted(LETTERS.items()):
+        rep.check(got.get(ch) == want, "R-SIG-ATTR", "letter|" + ch, ia.loc, "%s -> %s" % (ch, got.get(ch)),
+                  "signature letter '%s' means %s bytes %s, found %s" % (ch, want[0], want[1], got.get(ch)))
+
+    # ---------------- arity is the number of non-padding parameters
+    rep.rule("R-ARITY-DEF", "the number of arguments a call may pass equals the number of arguments encode_args consumes: parameters without a "
+                            "default (padding is the only defaulted encoding, R-PADDING)")
+    mn = db.fn("context::defs::Signature::min_args")
+    mx = db.fn("context::defs::Signature::max_args")
+    rep.fn(mn)
+    rep.fn(mx)
+
+    def counts_non_default(fn_):
+        calls = set(t.get("f", "") for _, t in fn_.calls())
+        if any(x.endswith("Signature::min_args") for x in calls) and fn_ is not mn:
+            return True
+        def mentions_default(x):
+            if isinstance(x, list):
+                if len(x) >= 2 and x[0] == "f" and x[1] == "default":
+                    return True
+                return any(mentions_default(y) for y in x)
+            if isinstance(x, dict):
+                return any(mentions_default(y) for y in x.values())
+            return False
+        for c in db.children.get(fn_.id, []):
+            if any(mentions_default(st) for b in c.blocks for st in b["s"]) or any(mentions_default(t["a"]) for _, t in c.calls()):
+                return True
+        return False
+    for fn_, nm in ((mn, "min_args"), (mx, "max_args")):
+        uses_len = any(t.get("f", "").endswith("::len") for _, t in fn_.calls())
+        rep.check(counts_non_default(fn_) and not uses_len, "R-ARITY-DEF", "Signature::" + nm, fn_.loc, "counts parameters without a default",
+                  "%s is not the count of parameters without a default (%s): calls may pass arguments that encode_args never consumes, so later arguments land in the wrong field or are dropped"
+                  % (nm, "uses params.len()" if uses_len else "no reference to `default`"))
     return rep
